@@ -1,6 +1,7 @@
 import TonicModel.Model.Reflection
 import TonicModel.Spec.Reflection
 import TonicModel.Lemmas.Reflection
+import TonicModel.Lemmas.ReflectionWire
 /-
 C19 — Reflection resolves every registered symbol and file, and nothing else.
 Property theorems only; helper lemmas live in `Lemmas/Reflection`.
@@ -283,6 +284,16 @@ theorem C19_versions_agree (c : Config) (o1 o1a : List File) (s1 s1a : State)
   obtain ⟨b1, b2⟩ := C19_own_descriptor_conservative c o1a s0 s1a h0 h1a
   exact ⟨fun n x y => (a1 n x).trans (b1 n y).symm, fun nm x y => (a2 nm x).trans (b2 nm y).symm⟩
 
+/-- "… retrievable as a descriptor that decodes to what was registered", at the level of bytes:
+the bytes answered for a skeleton descriptor `f` (one that carries nothing beyond the names the
+model records, `extra = 0`; `ReflWire.encFile` is tied to prost's encoder by the correspondence
+run) are read back, by the oracle's own protobuf wire reader, as exactly `f` — for any nesting
+depth, given a recursion limit that covers it (prost's is 100). -/
+theorem C19_answer_bytes_decode (f : File) (hx : f.extra = 0) (limit : Nat)
+    (hd : Spec.ReflWire.MsgList.depth f.messages ≤ limit) :
+    Spec.ReflWire.decFile limit (ReflWire.encFile f) = some f :=
+  ReflWire.decFile_encFile f hx limit hd
+
 /-- The decision procedure the check evaluates on the observed answers decides the oracle
 relation (so a `fail:symbol-resolves-to-declaring-file` verdict is a genuine `¬ Declares`). -/
 theorem C19_verdict_decides (f : File) (n : Name) :
@@ -327,6 +338,8 @@ example : (match build exCfg with
     | .error _ => false) = true := by decide
 -- `exFile` is contested, `exFile'` (registered twice, identically) is too; an uncontested file:
 example : Unconflicted [exFile, exFile] exFile := by decide
+-- a skeleton descriptor of depth 2: the hypotheses of `C19_answer_bytes_decode` hold
+example : exFile.extra = 0 ∧ Spec.ReflWire.MsgList.depth exFile.messages ≤ 100 := by decide
 example : ¬ Unconflicted exCfg.files exFile := by decide
 
 end Examples
